@@ -442,6 +442,8 @@ def _case(x):
 
 
 def _judge_batch(chk, cap, recs, label, what):
+    if chk.tier == "thorough":
+        print(f"[C10] batch {label}: {len(recs)} records", flush=True)
     lib.judge_with_canaries(cap, "Trace_Pixels", recs, make_canaries(), label=label, what=what, case_of=_case, extra_env=JVM_ENV)
     if any(c == "M:input_malformed" for c, _ in chk.divergences):
         raise lib.MachineryError("the driver produced a maze outside the scope of the statement (M:input_malformed)")
